@@ -278,6 +278,11 @@ func (self *Compiler) compileProgram(
 					continue
 				}
 
+				// A module without globals, singletons and host imports has nothing to initialize.
+				if len(self.modules[moduleName][InitFunctionIdent].Instructions) == 0 {
+					continue
+				}
+
 				self.insert(newOneStringInstruction(Opcode_Call_Imm, otherInit), mainFnSpan)
 			}
 
